@@ -372,5 +372,197 @@ ADOPT = {
  },
 }
 
+
+# src/drop.rs: the unlink prefix of drop_unreachable_with_adoptions (extraction rule X11) over the mutable heap
+# shim.  Postcondition: the tables afterwards are exactly unlink_spec(tables before, dying object) — the dying
+# object's table empty, every peer without its Forward/Backward records of the dying object and with every other
+# record untouched — for every heap size, every multiplicity and every table iteration order, given I2 with
+# counts (sym_counts), I4 (tables_closed), "no zero-valued record" (nonzero) and no table borrow outstanding.
+DROP = {
+ "__prelude": r"""pub open spec fn nonzero(t: Tables) -> bool {
+    forall|p: Ptr, l: Link| #![trigger t[p][l]] t.contains_key(p) && t[p].contains_key(l) ==> t[p][l] > 0
+}
+
+pub open spec fn tables_closed(t: Tables) -> bool {
+    forall|p: Ptr, l: Link| #![trigger t[p].contains_key(l)] t.contains_key(p) && t[p].contains_key(l) ==> t.contains_key(l.ptr)
+}
+
+/// what the zero-count teardown's unlinking must leave: the dying object's table empty, every peer without its
+/// records of x, every other record of every peer untouched
+pub open spec fn unlink_spec(t: Tables, x: Ptr) -> Tables {
+    Map::new(t.dom(), |p: Ptr| if p == x { Map::<Link, usize>::empty() } else { t[p].remove(fl(x)).remove(bl(x)) })
+}
+
+/// unlink_spec followed by the release of x's (empty) table is purge_spec of verus/lemmas.rs
+pub proof fn lemma_unlink_then_drop_is_purge(t: Tables, x: Ptr)
+    requires t.contains_key(x),
+    ensures unlink_spec(t, x).remove(x) == purge_spec(t, x),
+{
+    assert(unlink_spec(t, x).remove(x) =~= purge_spec(t, x));
+}
+
+/// "no zero-valued record" is inductive over the three transition functions (it is what makes `cnt == 0`
+/// mean "no record"); the count bound is the one Links::insert requires
+pub proof fn lemma_nonzero_preserved(t: Tables, a: Ptr, b: Ptr)
+    requires nonzero(t), t.contains_key(a), t.contains_key(b),
+        cnt(t[a], fl(b)) < usize::MAX, cnt(t[b], bl(a)) < usize::MAX,
+    ensures nonzero(adopt_spec(t, a, b)), nonzero(unadopt_spec(t, a, b)), nonzero(unlink_spec(t, a)),
+{
+    let t1 = t.insert(a, bump(t[a], fl(b)));
+    assert(nonzero(t1)) by {
+        assert forall|p: Ptr, l: Link| #![trigger t1[p][l]] t1.contains_key(p) && t1[p].contains_key(l) implies t1[p][l] > 0 by {
+            if p == a { if l != fl(b) { assert(t[a][l] > 0); } } else { assert(t[p][l] > 0); }
+        }
+    }
+    let t2 = adopt_spec(t, a, b);
+    assert(fl(b) != bl(a));
+    assert(cnt(t1[b], bl(a)) == cnt(t[b], bl(a)));
+    assert forall|p: Ptr, l: Link| #![trigger t2[p][l]] t2.contains_key(p) && t2[p].contains_key(l) implies t2[p][l] > 0 by {
+        if p == b { if l != bl(a) { assert(t1[b][l] > 0); } } else { assert(t1[p][l] > 0); }
+    }
+    let u1 = t.insert(a, unbump(t[a], fl(b)));
+    assert(nonzero(u1)) by {
+        assert forall|p: Ptr, l: Link| #![trigger u1[p][l]] u1.contains_key(p) && u1[p].contains_key(l) implies u1[p][l] > 0 by {
+            if p == a { if l != fl(b) { assert(t[a][l] > 0); } } else { assert(t[p][l] > 0); }
+        }
+    }
+    let u2 = unadopt_spec(t, a, b);
+    assert forall|p: Ptr, l: Link| #![trigger u2[p][l]] u2.contains_key(p) && u2[p].contains_key(l) implies u2[p][l] > 0 by {
+        if p == b { if l != bl(a) { assert(u1[b][l] > 0); } } else { assert(u1[p][l] > 0); }
+    }
+    let w = unlink_spec(t, a);
+    assert forall|p: Ptr, l: Link| #![trigger w[p][l]] w.contains_key(p) && w[p].contains_key(l) implies w[p][l] > 0 by {
+        if p != a { assert(t[p][l] > 0); }
+    }
+}""",
+ "drop_unreachable_with_adoptions": {
+  "params": ["this"],
+  "locals": [("forward", r"let (\w+) = Link::forward\("), ("backward", r"let (\w+) = Link::backward\("), ("links", r"let (\w+) = \w+\.inner\(\)\.links\(\);"),
+             ("item", r"for \((\w+), &\w+\) in "), ("strong", r"for \(\w+, &(\w+)\) in ")],
+  "sig_rewrites": [(r"\(this: &mut Rc<T>\)", "(this: &RcH2, heap: &mut MHeap)")],
+  "spec": r"""    requires
+        old(heap).wf(), old(heap).has(this.ptr), old(heap).out@ == Set::<Ptr>::empty(),
+        sym_counts(old(heap).view()), nonzero(old(heap).view()), tables_closed(old(heap).view()),
+    ensures
+        final(heap).wf(), final(heap).out@ == Set::<Ptr>::empty(),
+        final(heap).view() == unlink_spec(old(heap).view(), this.ptr),
+""",
+  "body_start": r"""    proof { axiom_key_models(); }
+    let ghost v0 = old(heap).view();
+    let ghost x = this.ptr;
+""",
+  "inserts": [
+   {"at": r"let links_s1 = heap\.borrow_mut\(&this\.ptr\);", "pos": "after", "text": r"""    let ghost tb = links_s1@;
+    let ghost mut done: Set<Link> = Set::empty();
+    proof {
+        assert(tb == v0[x]);
+        assert(heap.view().dom() =~= v0.dom().remove(x));
+        assert forall|p: Ptr| heap.view().contains_key(p) implies #[trigger] heap.view()[p] == v0[p] by {}
+    }
+"""},
+   {"at": r"let mut it = links_s1\.iter\(\);", "pos": "after", "text": r"""    let ghost rem0 = it.remaining();
+    let ghost mut idx: int = 0;
+"""},
+   {"at": r"let item = kv\.0; let strong = \*kv\.1;", "pos": "after", "text": r"""        let ghost l = *item;
+        let ghost hv = heap.view();
+        proof {
+            assert(idx < rem0.len());
+            assert(kv == rem0[idx]);
+            assert(rem0.skip(idx).skip(1) =~= rem0.skip(idx + 1));
+            let ghost done0 = done;
+            done = done.insert(l);
+            idx = idx + 1;
+            assert forall|j: Link| done.contains(j) <==> exists|k: int| 0 <= k < idx && *(#[trigger] rem0[k]).0 == j by {
+                if done0.contains(j) { let k = choose|k: int| 0 <= k < idx - 1 && *(#[trigger] rem0[k]).0 == j; assert(*rem0[k].0 == j); }
+                if j == l { assert(*rem0[idx - 1].0 == j); }
+            }
+            assert(tb.contains_key(l) && tb[l] == strong);
+            assert(v0.contains_key(l.ptr));
+        }
+"""},
+   {"at": r"^\s*continue;", "pos": "before", "text": r"""            proof {
+                assert(l.ptr == x);
+                assert forall|q: Ptr| heap.view().contains_key(q) implies fl(q) != l && bl(q) != l by { if fl(q) == l || bl(q) == l { assert(q == x); } }
+            }
+"""},
+   {"at": r"let mut \w+ = heap\.borrow_mut\(&item\.ptr\);", "pos": "before", "text": r"""        let ghost p = item.ptr;
+        proof { assert(heap.view().contains_key(p)); assert(heap.tabs@.contains_key(p)); }
+"""},
+  ],
+  "loops": {
+   1: {"header_must_match": r"while let Some\(kv\) = it\.next\(\)", "spec": r"""        invariant
+            obeys_key_model::<Link>(), obeys_key_model::<Ptr>(),
+            forward == fl(x), backward == bl(x), x == this.ptr, links_s1@ == tb, tb == v0[x],
+            heap.wf(), heap.out@ =~= Set::<Ptr>::empty().insert(x),
+            v0.contains_key(x), sym_counts(v0), nonzero(v0), tables_closed(v0),
+            heap.view().dom() == v0.dom().remove(x),
+            // the iterator enumerates the dying object's table exactly once, in an arbitrary order
+            it.obeys_prophetic_iter_laws(), 0 <= idx <= rem0.len(), it.remaining() == rem0.skip(idx), rem0.len() == tb.len(),
+            rem0.no_duplicates(),
+            forall|i: int| 0 <= i < rem0.len() ==> tb.contains_key(*(#[trigger] rem0[i]).0) && tb[*rem0[i].0] == *rem0[i].1,
+            forall|l: Link| tb.contains_key(l) ==> exists|i: int| 0 <= i < rem0.len() && *(#[trigger] rem0[i]).0 == l,
+            forall|l: Link| done.contains(l) <==> exists|k: int| 0 <= k < idx && *(#[trigger] rem0[k]).0 == l,
+            // peers: records that do not name x are untouched; records naming x only shrink, and are gone once the
+            // matching record of x's table has been processed
+            forall|p: Ptr, l: Link| #![trigger heap.view()[p].contains_key(l)] heap.view().contains_key(p) && l != fl(x) && l != bl(x) ==> (heap.view()[p].contains_key(l) <==> v0[p].contains_key(l)),
+            forall|p: Ptr, l: Link| #![trigger heap.view()[p][l]] heap.view().contains_key(p) && l != fl(x) && l != bl(x) && v0[p].contains_key(l) ==> heap.view()[p][l] == v0[p][l],
+            forall|p: Ptr, l: Link| #![trigger heap.view()[p][l]] heap.view().contains_key(p) && heap.view()[p].contains_key(l) ==> heap.view()[p][l] > 0,
+            forall|p: Ptr| #![trigger cnt(heap.view()[p], bl(x))] heap.view().contains_key(p) ==> cnt(heap.view()[p], bl(x)) <= cnt(v0[p], bl(x)) && (done.contains(fl(p)) ==> cnt(heap.view()[p], bl(x)) == 0),
+            forall|p: Ptr| #![trigger cnt(heap.view()[p], fl(x))] heap.view().contains_key(p) ==> cnt(heap.view()[p], fl(x)) <= cnt(v0[p], fl(x)) && (done.contains(bl(p)) ==> cnt(heap.view()[p], fl(x)) == 0),
+        ensures idx == rem0.len(),
+        decreases tb.len() - idx,
+""", "body_end": r"""        proof {
+            assert(l.ptr == p);
+            assert(cnt(v0[x], fl(p)) == cnt(v0[p], bl(x)));
+            assert(cnt(v0[p], fl(x)) == cnt(v0[x], bl(p)));
+            assert(heap.view().dom() =~= v0.dom().remove(x));
+            assert forall|q: Ptr| heap.view().contains_key(q) && q != p implies #[trigger] heap.view()[q] == hv[q] by {}
+            assert forall|q: Ptr| #![trigger cnt(heap.view()[q], bl(x))] heap.view().contains_key(q) implies cnt(heap.view()[q], bl(x)) <= cnt(v0[q], bl(x)) && (done.contains(fl(q)) ==> cnt(heap.view()[q], bl(x)) == 0) by {
+                if q == p {
+                    assert(cnt(hv[p], bl(x)) <= cnt(v0[p], bl(x)));
+                    if l == fl(p) { assert(strong as nat == cnt(v0[p], bl(x))); }
+                } else {
+                    assert(heap.view()[q] == hv[q]);
+                    assert(cnt(hv[q], bl(x)) <= cnt(v0[q], bl(x)));
+                    if fl(q) == l { assert(q == p); }
+                }
+            }
+            assert forall|q: Ptr| #![trigger cnt(heap.view()[q], fl(x))] heap.view().contains_key(q) implies cnt(heap.view()[q], fl(x)) <= cnt(v0[q], fl(x)) && (done.contains(bl(q)) ==> cnt(heap.view()[q], fl(x)) == 0) by {
+                if q == p {
+                    assert(cnt(hv[p], fl(x)) <= cnt(v0[p], fl(x)));
+                    if l == bl(p) { assert(strong as nat == cnt(v0[p], fl(x))); }
+                } else {
+                    assert(heap.view()[q] == hv[q]);
+                    assert(cnt(hv[q], fl(x)) <= cnt(v0[q], fl(x)));
+                    if bl(q) == l { assert(q == p); }
+                }
+            }
+        }
+""", "after": r"""    proof { assert forall|l: Link| tb.contains_key(l) implies done.contains(l) by {} }
+    let ghost hvf = heap.view();
+"""},
+  },
+  "body_end": r"""    proof {
+        let u = unlink_spec(v0, x);
+        assert(heap.view().dom() =~= u.dom());
+        assert forall|p: Ptr| u.contains_key(p) implies #[trigger] heap.view()[p] =~= u[p] by {
+            if p != x {
+                assert(cnt(v0[x], fl(p)) == cnt(v0[p], bl(x)));
+                assert(cnt(v0[p], fl(x)) == cnt(v0[x], bl(p)));
+                assert(hvf.contains_key(p) && hvf[p] == heap.view()[p]);
+                assert(cnt(hvf[p], bl(x)) == 0) by { if cnt(v0[x], fl(p)) > 0 { assert(tb.contains_key(fl(p))); assert(done.contains(fl(p))); } }
+                assert(cnt(hvf[p], fl(x)) == 0) by { if cnt(v0[x], bl(p)) > 0 { assert(tb.contains_key(bl(p))); assert(done.contains(bl(p))); } }
+                assert(!hvf[p].contains_key(bl(x))) by { if hvf[p].contains_key(bl(x)) { assert(hvf[p][bl(x)] > 0); } }
+                assert(!hvf[p].contains_key(fl(x))) by { if hvf[p].contains_key(fl(x)) { assert(hvf[p][fl(x)] > 0); } }
+                assert forall|k: Link| k != fl(x) && k != bl(x) implies (hvf[p].contains_key(k) <==> v0[p].contains_key(k)) && (v0[p].contains_key(k) ==> hvf[p][k] == v0[p][k]) by {}
+            }
+        }
+        assert(heap.view() =~= u);
+        assert(heap.out@ =~= Set::<Ptr>::empty());
+    }
+""",
+ },
+}
+
 # rule application counts on the pinned tree; a different count is a lost anchor (exit 2)
 EXPECTED_COUNTS = {}
